@@ -16,7 +16,9 @@ Init == i = 0
 Report(r) == LET o == Orphans(r.es) IN
              \/ o = {}
              \/ PrintT("@@RC " \o ToJson([id |-> r.id, T |-> r.T,
-                        classes |-> {OrphanClass(r.es[j], r.T) : j \in o},
+                        classes |-> {OrphanClass(r.es[j], r.T) : j \in o}
+                                    \cup (IF \E j \in o, n \in 1..Len(r.es) : n > j /\ r.es[n].k = "S" /\ r.es[n].ref = r.es[j].ref
+                                          THEN {"reused"} ELSE {}),   \* the orphan's ref was issued again (KF-C15-4)
                         first |-> r.es[CHOOSE j \in o : \A k \in o : j <= k]]))
 Next == i < Len(Tr) /\ i' = i + 1 /\ Report(Tr[i + 1])
 Spec == Init /\ [][Next]_i
